@@ -361,7 +361,7 @@ def run(ctx):
     from mc import firstuse, pairs  # noqa: PLC0415
 
     # first use in a process before anything else touches the library (the workers must be pristine)
-    fu_ops = [["fu_item_decode", "0102b10400010203"], ["fu_item_sml", "<L <U1 1> <A \"x\">>"], ["fu_item_value", [1, "x", [70000]]]]
+    fu_ops = [["fu_item_decode", "0102b10400010203"], ["fu_item_value", [1, "x", [70000]]]] + ([["fu_item_sml", "<L <U1 1> <A \"x\">>"]] if ctx.thorough else [])  # one forked child per execution (~16 executions/s): two operations in the quick tier
     firstuse.run_part(ctx, fu_ops, "C14", 2 if ctx.thorough else 1)
     ops = [["item", d] for d in pair_ops.LEAVES[:4] + pair_ops.TREES[:1]] + [["from_value", 250], ["from_value", [1, "x", [70000]]]]
     pair_execs = pairs.run_part(ctx, ops, "C14", 2 if ctx.thorough else 1)
